@@ -281,6 +281,9 @@ func runCmd(args []string) int {
 	for _, r := range results {
 		ex := r.ex
 		fmt.Printf("== %s: paths=%d %v steps=%d queries=%d solver=%dms wall=%.1fs\n", r.h.Name(), ex.Paths, ex.PathsByEnd, ex.Steps, r.solver.Queries, r.solver.Millis, r.wall.Seconds())
+		if ex.InitError != "" {
+			fmt.Printf("   INCOMPLETE: package initialisation stopped early: %s\n", ex.InitError)
+		}
 		for _, o := range ex.SortedObs() {
 			if o.Inconcl > 0 {
 				inconcl++
